@@ -3,6 +3,7 @@ package l1
 import (
 	"fmt"
 	"sort"
+	"strings"
 	"time"
 
 	"github.com/btcsuite/btcd/chainhash/v2"
@@ -19,6 +20,9 @@ import (
 // chains, 2 sessions needing process-global hooks (filter checkpoints / pause
 // points) which the caller runs serially.
 func FilterPlanFromSeed(seed int64, idx int, class int) FilterPlan {
+	if class == 3 && idx < len(boundaryFixed) {
+		seed = 424242 // the first boundary sessions do not depend on the seed
+	}
 	r := newRand(seed^0xf117e4, int64(idx))
 	p := FilterPlan{}
 	p.Seed = seed*1000003 + int64(idx) + 500000
@@ -31,6 +35,8 @@ func FilterPlanFromSeed(seed int64, idx int, class int) FilterPlan {
 		p.ChainLen = 20 + r.Intn(300)
 	case 1:
 		p.ChainLen = 1000 + r.Intn(2300)
+	case 3:
+		p.ChainLen = 20 + r.Intn(300)
 	default:
 		p.ChainLen = 1000 + r.Intn(1500)
 		if r.Intn(2) == 0 {
@@ -106,7 +112,42 @@ func FilterPlanFromSeed(seed int64, idx int, class int) FilterPlan {
 		}
 	}
 	p.Legacy = r.Intn(4) == 0
+	if class == 3 {
+		// Class 3: a reorganisation placed at a boundary call of the at-tip
+		// round (k-th block-store read / k-th all-peer query).
+		if idx < len(boundaryFixed) {
+			p.ReorgAt = boundaryFixed[idx]
+		} else if r.Intn(3) == 0 {
+			p.ReorgAt = fmt.Sprintf("net.query#%d", 1+r.Intn(3))
+		} else {
+			p.ReorgAt = fmt.Sprintf("store.read#%d", 1+r.Intn(8))
+		}
+		p.Legacy = false
+		// Later rounds must exist: the honest chain keeps growing.
+		p.Growth = []int{1, 1, 3}[r.Intn(3)]
+		// Placements after the first query can replace a DISPUTED block also
+		// in the round that starts from genesis: half of those sessions are
+		// armed from the start and have their lies near the tip, where an
+		// injected reorganisation (depth 1-30) reaches them.
+		if !strings.HasPrefix(p.ReorgAt, "store.read#1") && !strings.HasPrefix(p.ReorgAt, "store.read#2") && idx%2 == 1 {
+			p.BoundaryFromGenesis = true
+			for i := range p.Behaviours {
+				for j := range p.Behaviours[i].Lies {
+					p.Behaviours[i].Lies[j].Height = int32(p.ChainLen - r.Intn(min(10, p.ChainLen-1)))
+				}
+			}
+		}
+	}
 	return p
+}
+
+// boundaryFixed: placements of the seed-independent boundary sessions.
+var boundaryFixed = []string{"store.read#1", "net.query#1", "store.read#2", "net.query#2", "store.read#3", "store.read#4"}
+
+// isBoundaryPoint: placements served by the harness's own store / network
+// wrappers rather than by a pause point of the client.
+func isBoundaryPoint(name string) bool {
+	return strings.HasPrefix(name, "store.read#") || strings.HasPrefix(name, "net.query#")
 }
 
 // RunFilterSession executes one filter-header session.
@@ -232,6 +273,13 @@ func runFilterSession(plan FilterPlan, onStep func(fs *FilterSession, st *StepOb
 			msg := wire.NewMsgHeaders()
 			msg.Headers = chaingen.Headers(br)
 			sp := s.Peers[fs.senderIndex()].SP
+			// A deep rollback is one database commit per block: at a boundary
+			// placement (no lock of the client is held there) the change is
+			// given the time to complete.
+			grace := 150 * time.Millisecond
+			if isBoundaryPoint(name) {
+				grace = 8 * time.Second
+			}
 			fs.injDone = make(chan struct{})
 			go func() {
 				defer close(fs.injDone)
@@ -240,15 +288,22 @@ func runFilterSession(plan FilterPlan, onStep func(fs *FilterSession, st *StepOb
 			select {
 			case <-fs.injDone:
 				s.note("injected reorg ran to completion inside the window")
-			case <-time.After(150 * time.Millisecond):
+			case <-time.After(grace):
 				s.note("injected reorg is excluded from the window (blocked); releasing")
 			}
 		}
-		neutrino.VerifSetPointHook(inject)
-		defer neutrino.VerifSetPointHook(nil)
+		// Boundary placements need no process-global hook: such sessions run
+		// in parallel with others.
+		if !isBoundaryPoint(plan.ReorgAt) {
+			neutrino.VerifSetPointHook(inject)
+			defer neutrino.VerifSetPointHook(nil)
+		}
 		if plan.ReorgAt == "store.afterAncestors" {
 			s.hooked.setAfterAncestors(func() { inject("store.afterAncestors") })
 			defer s.hooked.setAfterAncestors(nil)
+		}
+		if isBoundaryPoint(plan.ReorgAt) {
+			fs.AtBoundary = func() { inject(plan.ReorgAt) }
 		}
 	}
 
